@@ -47,7 +47,7 @@ func pickType(c *fw.Case, noStd bool) (reflect.Type, *jsonschema.ForOptions, str
 		return gen.Pick(r, typecorpus.PlainData), nil, "corpus"
 	case k == 1 && !noStd:
 		if r.IntN(3) == 0 {
-			return reflect.TypeFor[typecorpus.WithCustom](), customOpts(), "corpus-custom"
+			return gen.Pick(r, []reflect.Type{reflect.TypeFor[typecorpus.WithCustom](), reflect.TypeFor[typecorpus.WithCustomPtr]()}), customOpts(), "corpus-custom"
 		}
 		return gen.Pick(r, typecorpus.WithStd), nil, "corpus-std"
 	default:
